@@ -401,6 +401,7 @@ func (ss *Package) messageProperties(parent RootSchema, src protoreflect.Message
 				JSONName:    string(field.JSONName()),
 				Description: commentDescription(field),
 				Schema:      arrayField,
+				Required:    ext.validate.Required != nil && *ext.validate.Required,
 			}
 
 			properties = append(properties, prop)
